@@ -45,6 +45,18 @@ fn exec_encoder(plan: &Plan, st: &mut Stats) -> Result<(), Violation> {
     allowed.extend(map.control_points.effect_points.iter().map(|p| p.time));
     allowed.extend(map.control_points.sample_points.iter().map(|p| p.time));
     let mode = map.mode;
+    // the README's use case: decode, edit, encode — some sliders get another velocity (public field) before encoding
+    let edit = plan.get("edit_velocity");
+    if edit != 0 {
+        for (k, h) in map.hit_objects.iter_mut().enumerate() {
+            if let HitObjectKind::Slider(sl) = &mut h.kind {
+                if (k as i64 + edit) % 2 == 0 {
+                    sl.velocity *= if edit % 3 == 0 { 0.5 } else { 2.0 };
+                    st.inc("ops.slider-velocity-edited-before-encode");
+                }
+            }
+        }
+    }
     let mut sliders = 0u64;
     let mut lifetimes: Vec<(f64, f64)> = Vec::new();
     for h in map.hit_objects.iter_mut() {
@@ -355,6 +367,9 @@ impl Scenario for C20 {
                 }
             }
             p.data = text.into_bytes();
+            if rng.chance(1, 3) {
+                p.set("edit_velocity", 1 + rng.below(6) as i64);
+            }
             return p;
         }
         let mut p = Plan::new("C20", "shared-buffer-history", seed, idx);
